@@ -193,8 +193,14 @@ pub fn run_case(sub: u64, _scratch: &Path, acc: &mut Acc) {
     let nobin = run(&nb, &Knobs::default(), &Strategy::Slice, None, None);
     acc.evals += 1;
     let mut strategies: Vec<(Strategy, Knobs)> = vec![(Strategy::Slice, Knobs::default())];
-    for _ in 0..6 {
-        strategies.push((Strategy::Reader(gen_history(&mut rng)), gen_knobs(&mut rng)));
+    for i in 0..6 {
+        let mut k = gen_knobs(&mut rng);
+        if i >= 4 {
+            // the searcher has been used before: a seeded earlier search (complete, stopped, or
+            // failed at some read - also at the one after the last byte) leaves nothing behind
+            k.warm = rng.next() | 1;
+        }
+        strategies.push((Strategy::Reader(gen_history(&mut rng)), k));
     }
     for p in &placed {
         acc.faults.inc(&format!("NUL:{}", p.split('@').next().unwrap()));
